@@ -148,4 +148,15 @@ CHECKS = {
        "addresses, neither side changed by the other's mutation.",
   note="clone.Generic / derived struct clones are exercised in C08. Address collection uses reflect + unsafe on private fields.",
   technique="heap-graph observation (addresses + mutation) of real clones validated by TLC against the abstract equality"),
+ "C11": dict(
+  text="Monoid.tla gives every instance its meaning (Sum adds, Product multiplies, All/Any, concatenation, right-biased unions, "
+       "Option/Try inside, neutral-absent semigroup Option/Ptr, componentwise Tuple/HCons, Dual flips, Endo composes, Eval/IMap "
+       "transport); TLC checks associativity and two-sided identity of that meaning on all triples (10 590). For 33 instances of the "
+       "real monoid and semigroup packages the full Combine table, Empty, (a+b)+c vs a+(b+c) on every triple and Empty+a / a+Empty are "
+       "logged, and seq/iterator/list Reduce and FoldMap on every sequence of length <= 4 over three values; TLC (TraceMonoid) accepts "
+       "only the meaning of Monoid.tla, real associativity/identity and results equal to the left fold of Combine from Empty.",
+  note="Functions compared extensionally on {0,1,2,-3}; no overflow, no floats; Endo may compose in either order (consistently) and "
+       "Dual(Endo) must use the other one. monoid.Future and MergeSeq over other element types are not exercised; TupleN wiring for all "
+       "arities is C14's.",
+  technique="TLC checks monoid laws on the reference meaning; Combine tables, real-instance law checks and Reduce/FoldMap results validated by TLC"),
 }
